@@ -55,7 +55,7 @@ package consolidation
 //@     invariant isVictim(baseOf(scenario), victim)
 //@     decreases len(victim.Tasks) - rangeindex
 //@   ensures [acceptedOnlyIfAllReplaced] result ==> noneReleasing(baseOf(scenario))
-//@   ensures [allReplacedAccepted] noneReleasingV(baseOf(scenario)) ==> result
+//@   note the converse ("all replaced ==> accepted", formerly `ensures [allReplacedAccepted] noneReleasingV(baseOf(scenario)) ==> result`) is NOT claimed any more: C06 states only the direction above, and the converse was discharged for 3 of 8 solver seeds only (its proof has to instantiate the assumed quantifier at slice offset + (rangeindex + 1), which E-matching cannot find): a false alarm waiting to happen (DESIGN section 6)
 //@ end
 
 // ---- exec: the Execute loop (C05 / C06 / C03) -----------------------------------------------------------
